@@ -2,7 +2,7 @@
 # run every extension suite (quick) under several seeds; one line per run.  Records go to evidence_partial/.
 cd "$(dirname "$0")/.."
 for seed in "$@"; do
-  for id in X01 X02 X03 X04 X05 X06 X07 X08 X09 X10 X11 X12 X13 X14 X15 X16 X17 X18; do
+  for id in X01 X02 X03 X04 X05 X06 X07 X08 X09 X10 X11 X12 X13 X14 X15 X16 X17 X18 X19; do
     out=$(VERIF_SCRATCH_EVIDENCE=1 VERIF_SEED=$seed ./check $id --tier quick 2>&1); rc=$?
     echo "seed=$seed $id rc=$rc $(echo "$out" | grep -c '^DISAGREEMENT') disagreements | $(echo "$out" | grep 'tier=' | cut -c1-150)"
     if [ $rc -ne 0 ]; then echo "$out" | grep -E "DISAGREEMENT|what|MACHINERY" | head -6 | cut -c1-400; fi
